@@ -140,14 +140,20 @@ func onlyModelled(b []byte, modelled, reg map[string]bool) bool {
 }
 
 func observe(in []byte) string {
+	s, _ := observeEnc(in)
+	return s
+}
+
+// observeEnc: the observables of one slice and, when Box.Encode succeeded, the bytes it wrote (the second generation's input)
+func observeEnc(in []byte) (string, []byte) {
 	b, used, oc, _ := bx.DecodeSR(in)
 	if oc != "ok" {
-		return "dec=" + oc
+		return "dec=" + oc, nil
 	}
 	var size uint64
 	p := hx.Try(func() { size = b.Size() })
 	if p != "" {
-		return "dec=ok;sizepanic"
+		return "dec=ok;sizepanic", nil
 	}
 	ew, ewo, _ := bx.EncodeW(b)
 	es, eso, _ := bx.EncodeSW(b)
@@ -157,7 +163,10 @@ func observe(in []byte) string {
 		}
 		return o
 	}
-	return fmt.Sprintf("dec=ok;used=%d;size=%d;encw=%s;encsw=%s", used, size, f(ewo, ew), f(eso, es))
+	if ewo != "ok" {
+		ew = nil
+	}
+	return fmt.Sprintf("dec=ok;used=%d;size=%d;encw=%s;encsw=%s", used, size, f(ewo, ew), f(eso, es)), ew
 }
 
 // fileCases: whole files for DecodeFileSR -- hand-built ones, every testdata file (mdat payloads cut to 16 bytes when the
@@ -265,11 +274,18 @@ func corr(seed uint64, n int, nfile int, kinds []string, repo string) {
 		}
 	}
 	pathdiff := 0
+	gen2 := 0
 	byOrigin := map[string]int{}
 	for i, c := range cases {
-		obs := observe(c)
+		obs, enc := observeEnc(c)
 		fmt.Fprintf(out, "C\t%d\t%s\t%s\n", i, hx.Hex(c), obs)
 		byOrigin[origin[i]]++
+		// second generation: an accepted input that Box.Encode did NOT reproduce (lossy / normalised / reserved bytes rewritten):
+		// what the real decoder and encoders do with the bytes they wrote (the model recomputes them from its own output)
+		if enc != nil && !bytes.Equal(enc, c) {
+			fmt.Fprintf(out, "G\tg%d\t%s\t%s\n", i, hx.Hex(c), observe(enc))
+			gen2++
+		}
 		// reader path, for the statistics only (path differences are C03's subject)
 		_, _, ocR, _ := bx.DecodeR(c)
 		if (ocR == "ok") != strings.HasPrefix(obs, "dec=ok") {
@@ -279,8 +295,14 @@ func corr(seed uint64, n int, nfile int, kinds []string, repo string) {
 	// whole files through DecodeFileSR / File.Encode / File.EncodeSW
 	fc, fo := fileCases(hx.NewRng(seed+1234), repo, nfile, hv, 20000, func(b []byte) bool { return onlyModelled(b, modelled, reg) })
 	for i, c := range fc {
-		fmt.Fprintf(out, "F\tf%d\t%s\t%s\n", i, hx.Hex(c), bx.ObserveFile(c))
+		fobs, fenc := bx.ObserveFileEnc(c)
+		fmt.Fprintf(out, "F\tf%d\t%s\t%s\n", i, hx.Hex(c), fobs)
 		byOrigin[fo[i]]++
+		// second generation of a file that File.Encode did not reproduce: DecodeFileSR / File.Encode / File.EncodeSW on the output
+		if fenc != nil && !bytes.Equal(fenc, c) {
+			fmt.Fprintf(out, "H\th%d\t%s\t%s\n", i, hx.Hex(c), bx.ObserveFile(fenc))
+			gen2++
+		}
 		_, ocR, _ := bx.DecodeFileR(c)
 		if _, ocS, _ := bx.DecodeFileSR(c); ocR != ocS {
 			pathdiff++
@@ -291,7 +313,7 @@ func corr(seed uint64, n int, nfile int, kinds []string, repo string) {
 		os_ = append(os_, fmt.Sprintf("%s=%d", k, v))
 	}
 	sort.Strings(os_)
-	fmt.Fprintf(os.Stderr, "STATS cases=%d harvested_boxes=%d reader_path_outcome_differs=%d %s\n", len(cases)+len(fc), nh, pathdiff, strings.Join(os_, " "))
+	fmt.Fprintf(os.Stderr, "STATS cases=%d harvested_boxes=%d reader_path_outcome_differs=%d second_generation=%d %s\n", len(cases)+len(fc), nh, pathdiff, gen2, strings.Join(os_, " "))
 }
 
 // ---------------------------------------------------------------- search
